@@ -81,12 +81,14 @@ func (d *Decoder) Err() error {
 }
 
 func (d *Decoder) Next() bool {
-	if d.statementsIdx == -1 {
-		d.parseAll()
-	}
-
 	if d.err != nil {
 		return false
+	} else if d.statementsIdx == -1 {
+		d.parseAll()
+
+		if d.err != nil {
+			return false
+		}
 	}
 
 	d.statementsIdx++
